@@ -412,23 +412,40 @@ def roundHalfEven (q : Rat) : Int :=
 /-- `np.round(gb * 1024**3).astype(int)` -/
 def bytesOfGb (gb : Rat) : Int := roundHalfEven (gb * 1073741824)
 
-/-- `max(100, load_chunk_size)` of `_calculate_csr_indptr` -/
-def minCountChunk : Nat := 100
-/-- `max(100, load_chunk_size)` of `transpose_sparse_matrix_on_disk` -/
-def minLoadChunk : Nat := 100
-/-- `max(100, elements_at_a_time)` -/
-def minElements : Nat := 100
-/-- `dex_bytes = 8` -/
-def dexBytes : Nat := 8
+/-- the constants of the budget arithmetic as they stand in the source
+(regenerated into `CTM/Generated/SparseConsts.lean` on every run; the driver
+instantiates the model with the regenerated values).  Every theorem holds for
+all values with the three minimum sizes `≥ 1`. -/
+structure BudgetConsts where
+  /-- `max(N, load_chunk_size)` of `_calculate_csr_indptr` -/
+  minCount : Nat
+  /-- `max(N, load_chunk_size)` of `transpose_sparse_matrix_on_disk` -/
+  minLoad : Nat
+  /-- `max(N, elements_at_a_time)` -/
+  minEl : Nat
+  /-- `dex_bytes` -/
+  dexBytes : Nat
+  deriving Repr, BEq, DecidableEq, Inhabited
 
 /-- the integer part of the budget arithmetic of
 `transpose_sparse_matrix_on_disk` / `_calculate_csr_indptr`; `countGb`,
-`loadGb`, `elGb` are the floats `0.8*max_gb`, `that/3`, `that - that/3` -/
+`loadGb`, `elGb` are the floats `0.8*max_gb`, the share of it for the blocks
+read from the input and the share for the output buffers -/
+def Budget.ofConsts (K : BudgetConsts) (countGb loadGb elGb : Rat)
+    (dataBytes indptrBytes indicesBytes : Nat) : Budget :=
+  { loCount := max K.minCount ((bytesOfGb countGb / (indicesBytes : Int)) / 2).toNat
+    lo := max K.minLoad
+      (bytesOfGb loadGb / ((dataBytes + indptrBytes + indicesBytes + K.dexBytes : Nat) : Int)).toNat
+    el := max K.minEl (bytesOfGb elGb / ((dataBytes + max indicesBytes indptrBytes : Nat) : Int)).toNat }
+
+/-- the constants of the tree the model was first written against
+(`max(100, …)` three times, `dex_bytes = 8`) -/
+def pinnedConsts : BudgetConsts := ⟨100, 100, 100, 8⟩
+
+/-- `Budget.ofConsts` at the pinned constants (kept for the theorems of other
+groups that quote it; the driver uses the regenerated constants) -/
 def Budget.of (countGb loadGb elGb : Rat) (dataBytes indptrBytes indicesBytes : Nat) : Budget :=
-  { loCount := max minCountChunk ((bytesOfGb countGb / (indicesBytes : Int)) / 2).toNat
-    lo := max minLoadChunk
-      (bytesOfGb loadGb / ((dataBytes + indptrBytes + indicesBytes + dexBytes : Nat) : Int)).toNat
-    el := max minElements (bytesOfGb elGb / ((dataBytes + max indicesBytes indptrBytes : Nat) : Int)).toNat }
+  Budget.ofConsts pinnedConsts countGb loadGb elGb dataBytes indptrBytes indicesBytes
 
 /-- `transpose_sparse_matrix_on_disk(indices, indptr, data, indices_max, …,
 indices_slice)`; the result is `(indptr, indices, data)` of the output file -/
@@ -456,10 +473,6 @@ def transposeV2 {α} (M : Mat α) (indicesMax nProc : Nat) (B : Budget) :
     let parts ← (chunks indicesMax step).mapM fun sl =>
       transposeOnDisk M indicesMax (some sl) B
     return joinParts parts
-
-/-- `chunk_size = 1000000` of the joining loop of
-`_transpose_sparse_matrix_on_disk_v2` -/
-def joinBlockSize : Nat := 1000000
 
 /-- the inner loop of the joining step,
 `for src0 in range(0, src_n, chunk_size): dst1 = dst0 + (src1-src0);
